@@ -286,7 +286,14 @@ def c08_exec(plan):
                 ev["a"] = {"h": i, "k": k, "dst": s.get("dst") if res else None, "piece": (u[2] % len(res)) if res else None}
                 if res and s.get("dst") is not None:
                     H[s["dst"]] = res[u[2] % len(res)]
-            elif op in ("int", "sint", "str", "iter", "hw"):
+            elif op == "hd":
+                i = pick(u[0])
+                if i is None:
+                    raise _Skip()
+                j = pick(u[1], lambda o: o.size == H[i].size)
+                ev["a"] = {"h": i, "other": {"handle": j}}
+                res = H[i].hd(H[j])
+            elif op in ("int", "sint", "str", "iter", "hw", "bytes", "bitlist_rev"):
                 i = pick(u[0], (lambda o: o.size > 0) if op == "sint" else None)
                 if i is None:
                     raise _Skip()
@@ -299,6 +306,10 @@ def c08_exec(plan):
                     res = str(H[i])
                 elif op == "iter":
                     res = list(H[i])
+                elif op == "bytes":
+                    res = H[i].bytes().hex()
+                elif op == "bitlist_rev":
+                    res = H[i].bitlist(-1)
                 else:
                     res = H[i].hw()
             elif op == "drop":
@@ -409,7 +420,7 @@ class C08(Machine):
             elif r < 0.96:
                 pb.step(c, op=rng.choice(["getslice", "getslice", "getlist"]), u=u, dst=dst if rng.random() < 0.7 else None)
             else:
-                pb.step(c, op=rng.choice(["int", "sint", "str", "iter", "hw"]), u=u)
+                pb.step(c, op=rng.choice(["int", "sint", "str", "iter", "hw", "bytes", "bitlist_rev", "hd"]), u=u)
         return pb.finish(rng)
 
     # -----------------------------------------------------------------------------------------
@@ -576,6 +587,18 @@ class C08(Machine):
                     has_res = True
                 elif op == "hw":
                     exp_res = R.hw(cells[hc[a["h"]]])
+                    has_res = True
+                elif op == "hd":
+                    x = cells[hc[a["h"]]]
+                    y = cells[hc[a["other"]["handle"]]]
+                    exp_res = R.hw((x[0] ^ y[0], x[1]))
+                    has_res = True
+                elif op == "bytes":
+                    exp_res = R.to_bytes(cells[hc[a["h"]]]).hex()
+                    has_res = True
+                elif op == "bitlist_rev":
+                    x = cells[hc[a["h"]]]
+                    exp_res = R.bits_of(x[0], x[1])[::-1]
                     has_res = True
             except (KeyError, TypeError, AssertionError, ZeroDivisionError):
                 probe("harness_inconsistency")   # never on a plan as generated (driver turns it into exit 2)
